@@ -18,10 +18,10 @@ pub fn data_dir_absolute_path(data_dir: String) -> PathBuf {
 
 pub fn from_file<T: Default + serde::de::DeserializeOwned>(path: &PathBuf) -> T {
     match std::fs::read(path) {
-        Ok(file_content) => toml::from_slice::<T>(&file_content).unwrap_or_else(|e| {
-            eprintln!("Couldn't parse config file: {e}");
-            T::default()
-        }),
+        // A file that is there but cannot be used is not replaced by the defaults (the operator asked for something else):
+        // only a missing file means "defaults".
+        Ok(file_content) => toml::from_slice::<T>(&file_content)
+            .unwrap_or_else(|e| panic!("Couldn't parse config file ({}): {e}", path.display())),
         Err(_) => T::default(),
     }
 }
